@@ -1824,7 +1824,6 @@ def _parents_aggregate(ex: AbsExec, scn: Scenario, sel: Sel, d: Inst, ja: str, f
         pin = isel.insts[pa]
         p_left = pin.jtype == 'LEFT'
         if p_left:
-            osel = SelBuilder(scn.schema, lambda n: n in frame.vars, lambda e: (_ for _ in ()).throw(Undecided('v'))).build(sub.frm, None)
             jsel = Sel()
             jsel.insts = isel.insts
             b = SelBuilder(scn.schema, lambda n: n in frame.vars, lambda e: (_ for _ in ()).throw(Undecided('v')))
@@ -1943,7 +1942,6 @@ def _parents_aggregate(ex: AbsExec, scn: Scenario, sel: Sel, d: Inst, ja: str, f
                 repl[id(a_)] = lin
             else:
                 repl[id(a_)] = lin if ex.case.sign(nonnull) > 0 else None
-        node = sf.subst(c, lambda n: None)  # fresh copy is not needed: substitute by identity on the original
         mapping = repl
 
         def sub_agg(n: N, mapping=mapping, ags=ags) -> Optional[N]:
